@@ -71,6 +71,7 @@ def build(cvk, tvk, avk, ovk, dvk, s1, s2, n, items):
     vals = {"cv": value(cvk, s1, n), "tv": value(tvk, s2, n), "av": value(avk, s1, n), "ov": value(ovk, s2, n), "dv": value(dvk, s1, n)}
     seq = [({"v": it} if it is not None else {}) for it in items]
     real = simpleTALES.Context(allowPythonPath=0)
+    real.log = NullLog()
     ref = R.Ctx({})
     for k, v in vals.items():
         real.addGlobal(k, simpleTALES.DEFAULTVALUE if v == "DEFAULT" else v)
@@ -78,6 +79,15 @@ def build(cvk, tvk, avk, ovk, dvk, s1, s2, n, items):
     real.addGlobal("items", seq)
     ref.globals["items"] = seq
     return real, ref
+
+
+class NullLog:
+    """logging under the tracer is slow and irrelevant"""
+
+    def debug(self, *a, **kw):
+        pass
+
+    info = warning = error = critical = exception = debug
 
 
 class StrWriter:
